@@ -1,0 +1,29 @@
+/*
+ * Verification-only hooks. Compiled in only when BLOC_VERIF is defined;
+ * without the define this header is empty and the library is unchanged.
+ */
+#ifndef VERIF_HOOKS_H_
+#define VERIF_HOOKS_H_
+#ifdef BLOC_VERIF
+
+namespace bloc
+{
+
+class Context;
+class Statement;
+
+struct VerifHooks
+{
+  /* called by Statement::execute before the statement does its work */
+  void (*on_statement)(Context& ctx, const Statement * stmt);
+  /* called by Context::allocate before a temporary is handed out */
+  void (*on_allocate)(Context& ctx);
+};
+
+/* all null by default */
+extern VerifHooks verif_hooks;
+
+}
+
+#endif /* BLOC_VERIF */
+#endif /* VERIF_HOOKS_H_ */
